@@ -6,12 +6,13 @@ Open Scope Z_scope.
 
 Definition coord (n : Z) : Prop := 0 <= n <= int64_max.
 
-(* what may follow a location in a printed location: nothing, ')' or ',' *)
+(* what may follow a printed location: nothing, ')' or ',' inside a compound
+   location, or the end of the line in a feature table *)
 Definition follows (post : list byte) : Prop :=
-  match post with [] => True | c :: _ => c = 41 \/ c = 44 end.
+  match post with [] => True | c :: _ => c = 41 \/ c = 44 \/ c = 10 end.
 
 Lemma follows_nondigit post : follows post -> match post with c :: _ => is_digit c = false | [] => True end.
-Proof. destruct post as [|c t]; [trivial|]. intros [->| ->]; reflexivity. Qed.
+Proof. destruct post as [|c t]; [trivial|]. intros [->|[->| ->]]; reflexivity. Qed.
 
 Lemma itoa_head n : 0 <= n -> exists c t, itoa n = c :: t /\ is_digit c = true.
 Proof.
@@ -143,8 +144,8 @@ Proof.
   destruct post as [|c t].
   - run ltac:(apply try_err; apply next_nil). rewrite bind_ret.
     run ltac:(apply drop_ne). replace (s + 1 - 1) with s by lia. do 3 eexists. reflexivity.
-  - run_next. assert (Hc62 : c = 41 \/ c = 44) by exact Hf.
-    destruct Hc62 as [-> | ->]; cbv iota; rewrite bind_ret; run ltac:(apply drop_ne);
+  - run_next. assert (Hc62 : c = 41 \/ c = 44 \/ c = 10) by exact Hf.
+    destruct Hc62 as [-> |[-> | ->]]; cbv iota; rewrite bind_ret; run ltac:(apply drop_ne);
       replace (s + 1 - 1) with s by lia; do 3 eexists; reflexivity.
 Qed.
 
@@ -305,13 +306,13 @@ Section Body.
     intros Hn Hc Hf. cbn [show]. unfold alts.
     destruct (itoa_head (n + 1) ltac:(lia)) as (c1 & t1 & E1 & D1).
     assert (Hdd : is_prefix s_dotdot post = false).
-    { destruct post as [|c t]; [reflexivity|]. destruct Hf as [-> | ->]; reflexivity. }
+    { destruct post as [|c t]; [reflexivity|]. destruct Hf as [-> |[-> | ->]]; reflexivity. }
     skip_alt (parse_range_fail_number (n + 1) post o e a fr k Hc (follows_nondigit _ Hf) Hdd).
     assert (H94 : match post with c :: _ => is_digit c = false /\ c <> 94 | [] => True end).
-    { destruct post as [|c t]; [trivial|]. destruct Hf as [-> | ->]; split; (reflexivity || discriminate). }
+    { destruct post as [|c t]; [trivial|]. destruct Hf as [-> |[-> | ->]]; split; (reflexivity || discriminate). }
     skip_alt (parse_between_fail_number (n + 1) post o e' a fr k Hc H94).
     assert (H46 : match post with c :: _ => is_digit c = false /\ c <> 46 | [] => True end).
-    { destruct post as [|c t]; [trivial|]. destruct Hf as [-> | ->]; split; (reflexivity || discriminate). }
+    { destruct post as [|c t]; [trivial|]. destruct Hf as [-> |[-> | ->]]; split; (reflexivity || discriminate). }
     skip_alt (parse_ambiguous_fail_number (n + 1) post o e'0 a fr k Hc H46).
     assert (Hkw : forall kw, hd 0 kw <> c1 -> kw <> [] -> is_prefix kw (itoa (n + 1) ++ post) = false).
     { intros kw H1 H2. rewrite E1. cbn [app]. apply is_prefix_false_first; [congruence|exact H2]. }
